@@ -271,6 +271,7 @@ def gen_config(cs, tier='quick', force=None):
         for i in range(1, c['W'] + 1):
             sp[i] = [1.0, 2.0, 4.0][cs.choose(3, 'speed')]
     c['speeds'] = sp
+    c['pid_gap'] = [0, 0, 7, 40][cs.choose(4, 'pid_gap')]
     c['faults'] = []
     if c['iter_fail']:
         c['faults'].append('iter_fail')
@@ -359,7 +360,7 @@ def run_one(payload):
                       stalls={int(k_): v for k_, v in c.get('stalls', {}).items()},
                       clock_jumps=[tuple(x) for x in c.get('clock_jumps', [])],
                       short_write='short_write' in c['faults'], kill_plan=c.get('kill_plan'),
-                      repo_src=REPO_SRC, step_cap=payload.get('step_cap', 300000), capture_copies=True)
+                      repo_src=REPO_SRC, step_cap=payload.get('step_cap', 300000), capture_copies=True, pid_gap=c.get('pid_gap', 0))
         k = K.Kernel(cs, simcfg, sandbox, run_seed=seed)
         k.rng_objects = _find_rng_objects()
         k.rng_finder = _find_rng_objects
